@@ -3,19 +3,157 @@ import Abyss.Lemmas.AllocL
 import Abyss.Lemmas.ChainL
 import Abyss.Lemmas.RelinkL
 import Abyss.Lemmas.SpecL
+import Abyss.Lemmas.PutAux
+import Abyss.Lemmas.PutRepl
+import Abyss.Lemmas.PutIns
 /-!
 # `put` refines the ideal map and keeps the invariant
 -/
 namespace Abyss
 namespace Store
+namespace Put
 
+/-- `rewrite_spec` as a description of the used records of the new file -/
+theorem rewrite_desc {α : Type} {c : FileCfg} {f : RecFile α} (hc : CfgOK c) (h : RecFile.WF c f)
+    {off sz0 : Nat} {p0 : α} (hu : f.used off = some (sz0, p0)) {need : Nat} (hn : LegalSz c need) (p : α) :
+    ∃ off' sz' f', RecFile.rewrite c f off need p = some (off', f') ∧ RecFile.WF c f' ∧
+      (∀ o, f'.used o = if o = off' then some (sz', p) else if o = off then none else f.used o) ∧
+      (off' = off ∨ f.used off' = none) ∧ off' ≠ 0 ∧
+      RecFile.usedCount f' = RecFile.usedCount f := by
+  obtain ⟨off', sz', f', hrw, hwf, hnew, _, hcase, hother, huc, _, _⟩ :=
+    RecFile.rewrite_spec hc h hu hn p
+  have hoff0 : off ≠ 0 := by
+    have := (RecFile.WF.get_bounds hc h (used_iff_get.1 hu)).1
+    have := hc.hdr_pos
+    omega
+  refine ⟨off', sz', f', hrw, hwf, ?_, ?_, ?_, huc⟩
+  · intro o
+    by_cases h1 : o = off'
+    · rw [if_pos h1, h1]; exact hnew
+    · rw [if_neg h1]
+      by_cases h2 : o = off
+      · rw [if_pos h2, h2]
+        rcases hcase with ⟨e, _⟩ | ⟨_, _, _, e⟩
+        · exact absurd (h2.trans e.symm) h1
+        · exact e
+      · rw [if_neg h2]
+        exact hother o h2 h1
+  · rcases hcase with ⟨e, _⟩ | ⟨_, _, e, _⟩
+    · exact Or.inl e
+    · exact Or.inr e
+  · rcases hcase with ⟨e, _⟩ | ⟨_, e, _, _⟩
+    · rw [e]; exact hoff0
+    · exact e
+
+/-- `addPiece_spec` as a description of the used records of the new file -/
+theorem addPiece_desc {α : Type} {c : FileCfg} {f : RecFile α} (hc : CfgOK c) (h : RecFile.WF c f)
+    {need : Nat} (hn : LegalSz c need) (p : α) :
+    ∃ off sz f', RecFile.addPiece c f need p = some (off, f') ∧ RecFile.WF c f' ∧
+      (∀ o, f'.used o = if o = off then some (sz, p) else f.used o) ∧
+      f.used off = none ∧ off ≠ 0 ∧
+      RecFile.usedCount f' = RecFile.usedCount f + 1 := by
+  obtain ⟨off, sz, f', hadd, hwf, _, hnew, hfresh, h0, hother, huc, _, _⟩ :=
+    RecFile.addPiece_spec hc h hn p
+  refine ⟨off, sz, f', hadd, hwf, ?_, hfresh, h0, huc⟩
+  intro o
+  by_cases h1 : o = off
+  · rw [if_pos h1, h1]; exact hnew
+  · rw [if_neg h1]; exact hother o h1
+
+end Put
+
+open Put in
 /-- `put` of an admissible key never fails (no panic, no hang), re-establishes the invariant
 and acts on the abstraction as the ideal map's `put` — whether the key is new, or its value is
 rewritten in place, or the value record moves, or the key record moves too and the chain has
 to be relinked. -/
 theorem put_spec {kt : KeyType} {s : Store} (h : Inv kt s) (k v : List Nat) (hk : KeyOK kt k) :
     ∃ s', s.put kt k v = some s' ∧ Inv kt s' ∧ s'.n = s.n ∧
-      Spec.Equiv (abs s') (Spec.put (abs s) k v) := by sorry
+      Spec.Equiv (abs s') (Spec.put (abs s) k v) := by
+  rcases find_spec h k hk with ⟨off, sz, kr, l1, l2, hfind, hu, hkey, hch⟩ | ⟨hfind, hnf⟩
+  · -- the key is present, in the record `kr` at `off`
+    subst hkey
+    have hget := used_iff_get.1 hu
+    obtain ⟨vs, v0, hvu⟩ := h.val_used _ _ _ hu
+    have hvget := used_iff_get.1 hvu
+    obtain ⟨voff', vsz', vf', hvrw, hvwf, hv1, hvn, _, _⟩ :=
+      rewrite_desc valCfg_ok h.vwf hvu (valueNeed_legal v.length) v
+    simp only [put, hfind, hget, hvget, hvrw]
+    by_cases hv : voff' = kr.valOff
+    · -- the value record stayed in place
+      rw [if_pos hv]
+      subst hv
+      refine ⟨_, rfl, ?_⟩
+      have R : Repl s { s with vf := vf' } off kr off sz kr.valOff vsz' v :=
+        { hn := rfl
+          hhead := fun _ => rfl
+          hbit := fun _ => rfl
+          hcount := rfl
+          kwf := h.kwf
+          vwf := hvwf
+          hk1 := by
+            intro o
+            by_cases h1 : o = off
+            · rw [if_pos h1, h1]; exact hu
+            · rw [if_neg h1, if_neg h1]
+          hv1 := hv1
+          hkn := Or.inl rfl
+          hkn0 := kused_ne_zero h.kwf hu
+          hvn := hvn
+          huc := rfl }
+      obtain ⟨hi, he⟩ := R.done h hu hch
+      exact ⟨hi, rfl, he⟩
+    · -- the value record moved: rewrite the key record
+      rw [if_neg hv]
+      obtain ⟨koff', ksz', kf', hkrw, hkwf, hk1, hkn, hkn0, huc⟩ :=
+        rewrite_desc keyCfg_ok h.kwf hu (keyNeed_legal { kr with valOff := voff' })
+          { kr with valOff := voff' }
+      simp only [hkrw]
+      have R : Repl s { s with vf := vf', kf := kf' } off kr koff' ksz' voff' vsz' v :=
+        { hn := rfl
+          hhead := fun _ => rfl
+          hbit := fun _ => rfl
+          hcount := rfl
+          kwf := hkwf
+          vwf := hvwf
+          hk1 := hk1
+          hv1 := hv1
+          hkn := hkn
+          hkn0 := hkn0
+          hvn := hvn
+          huc := huc }
+      by_cases hk2 : koff' = off
+      · rw [if_pos hk2]
+        subst hk2
+        refine ⟨_, rfl, ?_⟩
+        obtain ⟨hi, he⟩ := R.done h hu hch
+        exact ⟨hi, rfl, he⟩
+      · rw [if_neg hk2]
+        exact R.relinked hk2 h hu hch
+  · -- the key is new
+    obtain ⟨voff, vsz, vf', hav, hvwf, hv1, hvfresh, _, _⟩ :=
+      addPiece_desc valCfg_ok h.vwf (valueNeed_legal v.length) v
+    obtain ⟨koff, ksz, kf', hak, hkwf, hk1, hkfresh, hk0, huc⟩ :=
+      addPiece_desc keyCfg_ok h.kwf
+        (keyNeed_legal ⟨k, voff, s.headOf (bucketOf k s.n)⟩) ⟨k, voff, s.headOf (bucketOf k s.n)⟩
+    simp only [put, hfind, hav, hak]
+    refine ⟨_, rfl, ?_⟩
+    have I : Ins s { ({ s with vf := vf', kf := kf' } : Store).writeHead (bucketOf k s.n) koff with
+        count := s.count + 1 } k v koff ksz voff vsz :=
+      { hn := rfl
+        hhead := fun b' => headOf_writeHead { s with vf := vf', kf := kf' } (bucketOf k s.n) koff b'
+        hbit := fun b' => bitOf_writeHead { s with vf := vf', kf := kf' } (bucketOf k s.n) koff b'
+        hcount := rfl
+        kwf := hkwf
+        vwf := hvwf
+        hk1 := hk1
+        hv1 := hv1
+        hkfresh := hkfresh
+        hk0 := hk0
+        hvfresh := hvfresh
+        huc := huc }
+    obtain ⟨hi, he⟩ := I.done h hk hnf
+    exact ⟨hi, rfl, he⟩
 
 end Store
 end Abyss
